@@ -33,7 +33,7 @@ RULE_TAG = "pkg.onnxscript.rewriter.rule_name"
 # ------------------------------------------------------------------------------------------------
 # gamma: abstract case -> real model and real rules
 # ------------------------------------------------------------------------------------------------
-NOSHAPE = [False]   # hosts of the Mul1v family (a constant of shape [1]): float outputs are declared without a shape
+VEC = [set()]   # hosts of the Mul1v family (the constant "one1" of shape [1]): names of the values that have shape [1]
 
 
 def _vi(name, kind, out=False):
@@ -41,7 +41,7 @@ def _vi(name, kind, out=False):
     from onnx import TensorProto, helper
 
     t = {"f": TensorProto.FLOAT, "b": TensorProto.BOOL, "i": TensorProto.INT64}[kind]
-    return helper.make_tensor_value_info(name, t, None if (out and NOSHAPE[0] and kind == "f") else [])
+    return helper.make_tensor_value_info(name, t, [1] if (out and name in VEC[0]) else [])
 
 
 def _init(name, k):
@@ -99,7 +99,12 @@ def _graph(gj, name):
 def build_model(mj):
     from onnx import helper
 
-    NOSHAPE[0] = any(i["name"] == "one1" for i in mj["graph"]["inits"])
+    VEC[0] = set()
+    if any(i["name"] == "one1" for i in mj["graph"]["inits"]):   # (these hosts have no nested graphs)
+        VEC[0] = {"one1"}
+        for n in mj["graph"]["nodes"]:
+            if any(i in VEC[0] for i in n["ins"]):
+                VEC[0].add(n["out"])
     g = _graph(mj["graph"], "main")
     fns = []
     for f in mj["funcs"]:
